@@ -1,11 +1,11 @@
 #!/bin/sh
 # Run every registered check (quick by default): tools/run_all.sh [quick|thorough] [seed]
-cd /verif
+cd "$(dirname "$0")/.."
 T=${1:-quick}; S=${2:-1}
 rc=0
 for p in $(python3 -c "import json;print(' '.join(c['property_id'] for c in json.load(open('MANIFEST.json'))['checks']))"); do
-  VERIF_SEED=$S ./check $p --tier $T > /tmp/run_$p.log 2>&1; r=$?
-  tail -1 /tmp/run_$p.log | cut -c1-200
-  [ $r -ne 0 ] && { rc=1; grep -E "VIOLATION|INCONCLUSIVE|KNOWN" /tmp/run_$p.log | head -5; }
+  VERIF_SEED=$S ./check $p --tier $T > ${TMPDIR:-/tmp}/run_$$_$p.log 2>&1; r=$?
+  tail -1 ${TMPDIR:-/tmp}/run_$$_$p.log | cut -c1-200
+  [ $r -ne 0 ] && { rc=1; grep -E "VIOLATION|INCONCLUSIVE|KNOWN" ${TMPDIR:-/tmp}/run_$$_$p.log | head -5; }
 done
 exit $rc
